@@ -490,6 +490,81 @@ def hammer(nthreads=4, nops=40):
     return {"threads": nthreads, "ops_each": nops, "wrong": len(wrong), "sample": [str(w) for w in wrong[:3]], "alive": sum(th.is_alive() for th in ths)}
 
 
+def async_hammer(seed, ntasks=4, nops=25):
+    """the REAL asyncio.Lock contended for real (no controller, no stand-in): tasks queue in `asyncio.Lock.acquire()`, a
+    canceller cancels random tasks — parked in the real acquire() or in the middle of an operation.  Deterministic in the seed
+    (one event loop, seeded PRNG).  Checked: every operation's transport calls are contiguous, no RuntimeError / foreign
+    exception, everybody ends, the lock is free."""
+    import random
+    from harness.simtransport import AsyncSimTransport, SimStall
+    rng = random.Random(seed)
+    cur = {}
+
+    class T(AsyncSimTransport):
+        calls = []
+
+        def _tag(self):
+            self.calls.append(cur.get(asyncio.current_task().get_name()))
+
+        def write(self, channel_input):
+            self._tag()
+            AsyncSimTransport.write(self, channel_input)
+
+        async def read(self):
+            await asyncio.sleep(0)          # a real switch point inside the lock context
+            self._tag()
+            return await AsyncSimTransport.read(self)
+
+    async def go():
+        conn, t = make_conn("cisco_iosxe", device(), stack="async", transport_cls=T, channel_lock=True)
+        await t.open()
+        t.buf.clear()
+        lock = conn.channel.channel_lock
+        stats = {"ok": 0, "cancelled": 0, "stall": 0, "other": []}
+
+        async def work(c):
+            me = asyncio.current_task()
+            for k in range(nops):
+                cur[me.get_name()] = (c, k)
+                try:
+                    kind = (c + k) % 3
+                    if kind == 0:
+                        await conn.channel.get_prompt()
+                    elif kind == 1:
+                        await conn.channel.send_input(f"show c{c}o{k}")
+                    else:
+                        await conn.channel.send_inputs_interact([(f"show c{c}o{k}e0", PROMPT.decode()), (f"show c{c}o{k}e1", PROMPT.decode())])
+                    stats["ok"] += 1
+                except asyncio.CancelledError:
+                    me.uncancel()
+                    stats["cancelled"] += 1
+                except SimStall:
+                    stats["stall"] += 1
+                except Exception as e:  # noqa: BLE001
+                    stats["other"].append(f"{(c, k)}: {e!r}")
+
+        tasks = []
+        for c in range(ntasks):
+            tk = asyncio.ensure_future(work(c))
+            tk.set_name(f"w{c}")
+            tasks.append(tk)
+
+        async def canceller():
+            while not all(x.done() for x in tasks):
+                for _ in range(rng.randint(1, 6)):
+                    await asyncio.sleep(0)
+                live = [x for x in tasks if not x.done()]
+                if live and rng.random() < 0.5:
+                    rng.choice(live).cancel()
+
+        await asyncio.wait_for(asyncio.gather(canceller(), *tasks), 120)
+        order = [x for i, x in enumerate(T.calls) if i == 0 or T.calls[i - 1] != x]
+        return {"tasks": ntasks, "ops_each": nops, **{k: v for k, v in stats.items() if k != "other"}, "other": stats["other"][:3],
+                "n_other": len(stats["other"]), "interleaved_ops": len(order) - len(set(order)), "lock_locked": lock.locked()}
+
+    return asyncio.run(go())
+
+
 def timeout_scenario():
     """advisory (C07's business): a caller times out through the thread-pool mechanism while its worker is
     inside the lock context; what state is the lock in afterwards?"""
@@ -518,7 +593,7 @@ def timeout_scenario():
 
 
 # ---------------------------------------------------------------- timed family: operations that END BY TIMEOUT
-TIMED_HARD_LIMIT = 60          # a scenario process that is still there after this is killed (rig trouble, exit 2)
+TIMED_HARD_LIMIT = 240         # a scenario process that is still there after this is killed (rig trouble, exit 2)
 TIMED_SLACK = 8.0              # a caller still blocked timeout_ops + slack after the silent operation started counts as hung
 
 
@@ -532,7 +607,12 @@ def timed_scenarios(tier, rng):
         # a caller whose timeout expires while it WAITS for the lock (its pool worker is parked on it); the holder is slow, not dead
         {"waiter": True, "tname": "SimTransport", "hung": ["gp", "wait"], "queued": [["si"]], "a_timeout": 6.0, "a_delay": 2.0},
         {"waiter": True, "tname": "SystemTransport", "hung": ["si", "wait"], "queued": [], "a_timeout": 6.0, "a_delay": 2.0},
+        # asyncio: the decorator's wait_for of a task expires while the task is parked in `async with self.channel_lock`
+        {"waiter": True, "async_waiter": True, "tname": "AsyncSimTransport", "hung": ["gp", "wait"], "queued": [["si"]], "a_timeout": 6.0, "a_delay": 2.0},
     ]
+    if tier == "thorough":
+        base.append({"waiter": True, "async_waiter": True, "tname": "AsyncSimTransport", "hung": ["si", "wait"], "queued": [["gp"], ["sir"]],
+                     "a_timeout": 6.0, "a_delay": 2.0})
     if tier == "thorough":
         for hk, when in itertools.product(("si", "sir", "gp", "int"), ("echo", "output")):
             for tn in ("SimTransport", "SystemTransport"):
@@ -540,13 +620,14 @@ def timed_scenarios(tier, rng):
                 base.append({"tname": tn, "hung": [hk, when], "queued": q, "queued_first": rng.random() < 0.3})
     for sc in base:
         sc.setdefault("queued_first", False)
-        sc["timeout_ops"] = 0.3
+        sc["timeout_ops"] = 0.5        # the ONE caller that has to time out; callers queued behind it: +separation; all others 600 s
+        sc["separation"] = 4.0
         sc["slack"] = TIMED_SLACK
     return base
 
 
 def run_timed(scenarios):
-    """every scenario in its own killable process, all at once; -> list of result dicts (or {"killed": True})"""
+    """every scenario in its own killable process, all at once; -> list of result dicts ({"rig_error": text} on rig trouble)"""
     script = str(VERIF / "tools" / "harness" / "c19_timed.py")
     procs = [subprocess.Popen([sys.executable, script, json.dumps(sc)], stdout=subprocess.PIPE, stderr=subprocess.PIPE, text=True,
                               env=dict(os.environ)) for sc in scenarios]
@@ -558,12 +639,31 @@ def run_timed(scenarios):
         except subprocess.TimeoutExpired:
             p.kill()
             p.communicate()
-            raise HarnessError(f"timed scenario process had to be killed after {TIMED_HARD_LIMIT}s (its main thread never blocks on scrapli): {sc}")
+            out.append({"rig_error": f"process had to be killed after {TIMED_HARD_LIMIT}s (its main thread never blocks on scrapli)"})
+            continue
         try:
-            out.append(json.loads(so.strip().splitlines()[-1]))
+            r = json.loads(so.strip().splitlines()[-1])
         except Exception:
-            raise HarnessError(f"timed scenario process gave no result (rc={p.returncode}): {sc}\n{se[-1500:]}")
+            r = {"rig_error": f"process gave no result (rc={p.returncode}): {se[-1500:]}"}
+        if "rig_error" not in r and not r.get("lock_held_while_hung"):
+            r = {"rig_error": f"the scenario did not get its first operation blocked inside the lock context: {json.dumps(r)[:600]}"}
+        out.append(r)
     return out
+
+
+def run_timed_robust(scenarios, attempts=3):
+    """rig trouble (not a verdict about the code) is retried, then it is a harness error (exit 2), never a violation"""
+    results = run_timed(scenarios)
+    for _ in range(attempts - 1):
+        again = [i for i, r in enumerate(results) if "rig_error" in r]
+        if not again:
+            break
+        for i, r in zip(again, run_timed([scenarios[i] for i in again])):
+            results[i] = r
+    for sc, r in zip(scenarios, results):
+        if "rig_error" in r:
+            raise HarnessError(f"timed scenario {sc}: {r['rig_error']}")
+    return results
 
 
 def timed_expected(spec):
@@ -572,17 +672,30 @@ def timed_expected(spec):
 
 
 def timed_oracle(sc, r):
-    """violated clauses of C19 for one timed scenario (real threads, real lock, real timeout decorator)"""
+    """violated clauses of C19 for one timed scenario (real threads, real lock, real timeout decorator).  Which caller's timer
+    fired first is taken from the RECORDED order of transport.close() calls (`closers`, the thread that ran `_handle_timeout`),
+    not from wall-clock: that caller must get ScrapliTimeout; everybody else must end, with a scrapli error or its own result."""
     bad = []
     lim = sc["timeout_ops"] + sc["slack"]
     h = r["hung"]
+    role = "waited for the lock behind a slow operation" if sc.get("waiter") else "met a silent device"
+    everybody = {x["name"]: x for x in [h] + r["queued"]}
+    closers = r.get("closers", [])
     if h["alive"]:
-        bad.append(f"the operation that met a silent device is still blocked {lim}s after it started (timeout_ops={sc['timeout_ops']}): it never timed out")
-    elif h["outcome"][:2] != ["exc", "ScrapliTimeout"]:
-        bad.append(f"the operation that met a silent device ended with {h['outcome']} instead of ScrapliTimeout")
+        bad.append(f"the operation that {role} is still blocked {lim}s after it started (timeout_ops={sc['timeout_ops']}): it never timed out")
+    elif not closers:
+        bad.append(f"the operation that {role} ended with {h['outcome']} although nobody's timeout closed the transport")
+    else:
+        first = everybody.get(closers[0])
+        if first is None:
+            bad.append(f"the transport was closed by {closers[0]!r}, not by a caller's timeout")
+        elif not first["alive"] and first["outcome"][:2] != ["exc", "ScrapliTimeout"]:
+            bad.append(f"the timeout of caller {first['name']} fired first (it closed the transport) but its operation ended with {first['outcome']} instead of ScrapliTimeout")
+        if h["outcome"][0] == "ok" or not h["outcome"][2]:
+            bad.append(f"the operation that {role} ended with {h['outcome']}: neither ScrapliTimeout nor another scrapli error")
     for q in r["queued"]:
         if q["alive"]:
-            bad.append(f"caller {q['name']} {q['spec']}, queued on the channel lock behind the timed-out operation, is still blocked after {lim}s")
+            bad.append(f"caller {q['name']} {q['spec']}, queued on the channel lock, is still blocked after {lim}s")
         elif q["outcome"][0] == "ok":
             if q["outcome"][1] != timed_expected(q["spec"]):
                 bad.append(f"caller {q['name']} {q['spec']} got {q['outcome'][1]!r}, not the output of its own command")
@@ -604,26 +717,78 @@ def timed_oracle(sc, r):
     return bad
 
 
+def waiter_model_line(sc):
+    """the Lean model on the waiter scenario: the holder (caller 0) is parked before its last read; then the waiter's (caller 1)
+    timeout expires at the lock — asyncio: `timeout 1` (cancel + close), threads: `close` (the worker stays queued and fails at
+    its first call) — then everybody is run to the end"""
+    def shape(kind, cmd):
+        if kind == "gp":
+            return ["w0a", "r"]
+        return ["w" + cmd.encode().hex(), "r", "w0a", "r"]
+    progs = [shape("si", "show silent"), shape(sc["hung"][0], "show c1o0")] + [shape(q[0], f"show c{i + 2}o0") for i, q in enumerate(sc["queued"])]
+    n = len(progs)
+    if sc.get("async_waiter"):
+        sched = "00" + "B" + "".join(str(c) for c in range(n)) * 6
+        mode = "a"
+    else:
+        sched = "0000" + "X" + "".join(str(c) for c in range(n)) * 6
+        mode = "s"
+    return f"{mode} 1 {PROMPT.hex()} {'/'.join(','.join(p) for p in progs)} {sched}"
+
+
+def waiter_compare(sc, r, mline):
+    """'' when model and real run agree on: transport closed, lock free, every operation that reached the transport failed,
+    the holder's failing call is its pending read, the waiter's operation made no call (asyncio) / failed at its first (threads)"""
+    parts = mline.split(" ")
+    mw, mres, lk, dn = parse_model(" ".join(parts[:4]))
+    closed = len(parts) > 4 and parts[4] == "C1"
+    if not closed or lk != "L-" or dn != "D1":
+        return f"model end state {parts[2:]}: expected closed, lock free, all done"
+    if r["transport_alive_after"] or r["lock_locked_after"]:
+        return f"impl: transport alive={r['transport_alive_after']} lock held={r['lock_locked_after']}, model: closed, free"
+    model_cls = ["fail" if (mres[c] and mres[c][0][1] == "fail") else ("none" if not mres[c] else "ok") for c in range(len(mres))]
+    real = {q["name"]: q for q in r["queued"]}
+    real_cls = ["fail" if real["holder"]["outcome"][0] == "exc" else "ok"]
+    real_cls.append("none" if sc.get("async_waiter") else "fail")      # the waiter itself raises ScrapliTimeout in both stacks
+    real_cls += ["fail" if real[f"queued{i}"]["outcome"][0] == "exc" else "ok" for i in range(len(sc["queued"]))]
+    if r["hung"]["outcome"][:2] != ["exc", "ScrapliTimeout"]:
+        return f"impl: waiter ended with {r['hung']['outcome']}"
+    if model_cls != real_cls:
+        return f"operation outcomes impl={real_cls} model={model_cls}"
+    holder_events = [e for e in mw if e[0] == 0]
+    if not (holder_events and holder_events[-1][2] == "R" and holder_events[-1][4]):
+        return "model: the holder's last event is not its failing read"
+    return ""
+
+
 def timed_family(ck, tier, closes_before_join):
     """runs the scenarios, oracle + comparison with the Lean protocol model (PoolTimeout); returns nothing"""
     scs = [c["timed"] for c in json.load(open(VERIF / "corpus" / "C19" / "corpus.json")) if "timed" in c]
     scs += [sc for sc in timed_scenarios(tier, ck.rng) if sc not in scs]
-    results = run_timed(scs)
+    results = run_timed_robust(scs)
+    flipped = 0
     mout = None
     if closes_before_join is not None:
         try:
             # the sim transport's close() wakes a blocked read: closeWakes = 1; fair schedule: timeout, then (caller, worker) x 3
-            mout = run_model("C19", [f"T {1 if closes_before_join else 0} 1 ccwcwcw"] * len(scs))
+            mout = run_model("C19", [waiter_model_line(sc) if sc.get("waiter") else f"T {1 if closes_before_join else 0} 1 ccwcwcw" for sc in scs])
         except Exception as e:  # noqa: BLE001
             ck.proof_broken("model driver Drv/C19.lean (T)", repr(e))
     for i, (sc, r) in enumerate(zip(scs, results)):
-        if not r.get("lock_held_while_hung"):
-            raise HarnessError(f"timed scenario did not get the silent operation blocked inside the lock context: {sc} {r}")
         ck.case(("timed", json.dumps(sc, sort_keys=True)), nontrivial=True, sample={"timed": sc, "hung": r["hung"]},
-                tags=("timed", "threads", "waiter-times-out" if sc.get("waiter") else "holder-times-out", f"transport={sc['tname']}", f"hung={sc['hung'][0]}/{sc['hung'][1]}", f"queued={len(sc['queued'])}"))
+                tags=("timed", "asyncio" if sc.get("async_waiter") else "threads", "waiter-times-out" if sc.get("waiter") else "holder-times-out", f"transport={sc['tname']}", f"hung={sc['hung'][0]}/{sc['hung'][1]}", f"queued={len(sc['queued'])}"))
         for what in timed_oracle(sc, r)[:1]:
             ck.violation({"timed": sc, "observed": r}, what, matcher)
-        if mout is not None and not sc.get("waiter"):
+        modelled = (r.get("closers") or [None])[0] == ("waiter" if sc.get("waiter") else "hung") or r["hung"]["alive"]
+        if not modelled:
+            flipped += 1      # another caller's timer fired first (recorded): the models describe the other order; the oracle above still applies
+        if mout is not None and sc.get("waiter") and modelled and not r["hung"]["alive"]:
+            d = waiter_compare(sc, r, mout[i])
+            if d:
+                ck.disagree("Lock model (timeout at the lock closes the shared transport) vs real waiter timeout", {"timed": sc}, d)
+            else:
+                ck.traces_validated += 1
+        if mout is not None and not sc.get("waiter") and modelled:
             pc, lk, _cl = mout[i].split(" ")
             real = ("raised" if (not r["hung"]["alive"] and r["hung"]["outcome"][:2] == ["exc", "ScrapliTimeout"]) else "blocked",
                     "1" if r["lock_locked_after"] else "0")
@@ -633,6 +798,7 @@ def timed_family(ck, tier, closes_before_join):
             else:
                 ck.traces_validated += 1
     ck.extra["timed_scenarios"] = len(scs)
+    ck.extra["timed_scenarios_where_another_timer_fired_first(recorded)"] = flipped
 
 
 def run(tier, seed):
@@ -646,13 +812,13 @@ def run(tier, seed):
                "under the deterministic scheduler and the Lean model under the SAME schedule. Non-trivial = some caller was refused the lock "
                "while another held it; distinct by (stack, programs, schedule, fault, read size). Oracle = contiguity of every operation's "
                "transport calls, own output per caller, completion after a fault, equality with the one-at-a-time run in the same order. "
-               "Timed family (real threads, real threading.Lock, real timeout decorator, timeout_ops=0.3, blocking sim transport, each scenario in "
+               "Timed family (real threads, real threading.Lock, real timeout decorator, timeout_ops=0.5 for the one caller that has to time out (callers queued behind it 4 s later, others 600 s, per thread), blocking sim transport, each scenario in "
                "its own killable process): one operation meets a device that goes silent (before the echo / after the return; get_prompt, "
                "send_input, send_input_and_read, interact) while 1-3 callers are queued on the lock; oracle: it ends by ScrapliTimeout, nobody is "
                "still blocked timeout_ops+8s later, lock free, queued callers end with their own result or a scrapli error, the re-opened "
                "connection serves two fresh callers; compared with the Lean PoolTimeout protocol model fed with the generated close/join order; "
                "also: a caller whose timeout expires while it WAITS for the lock behind a slow holder. asyncio schedules additionally contain "
-               "CANCEL events (task.cancel() while the task is parked at the lock = what asyncio.wait_for does on timeout): every list over "
+               "CANCEL events (task.cancel() ONLY while the task is parked at the lock; a real timeout there additionally closes the shared transport: timed scenario async_waiter): every list over "
                "{run 0,1,2, cancel 1} of 5 (7) entries for 3 tasks, over {run 0,1, cancel 0,1} of 5 (7) for 2 tasks, PRNG for 2-4 tasks; "
                "a cancelled operation must make no transport call and leave the lock alone.")
     ck.trusted = ["Lean 4.33.0 kernel; axioms of every theorem audited ⊆ {propext, Classical.choice, Quot.sound}",
@@ -736,8 +902,23 @@ def run(tier, seed):
     ck.extra["exhaustive_scope"] = (f"2 callers x one operation each from {{get_prompt, send_input, send_input_and_read, send_inputs_interact(1)}} x EVERY "
                                    f"list of caller ids of length min(steps, {EXH_CAP_QUICK if tier == 'quick' else EXH_CAP_THOROUGH}) + fair tail; sync and asyncio; "
                                    "also with a fault at every call position")
+    # the REAL locks, contended for real (no stand-in, no controller)
+    for hseed in range(3 if tier == "quick" else 20):
+        try:
+            hr = async_hammer(seed * 1000 + hseed)
+        except asyncio.TimeoutError:
+            raise HarnessError("asyncio hammer did not end within 120 s")
+        ck.case(("async-hammer", seed, hseed), nontrivial=hr["cancelled"] > 0, sample={"async_hammer": hr}, tags=("hammer", "asyncio", "real-asyncio.Lock"))
+        if hr["interleaved_ops"] or hr["n_other"] or hr["lock_locked"]:
+            ck.violation({"async_hammer_seed": seed * 1000 + hseed, "observed": hr},
+                         f"real asyncio.Lock, random cancels: interleaved operations={hr['interleaved_ops']}, unexpected exceptions={hr['other']}, lock held at the end={hr['lock_locked']}", matcher)
+        ck.extra.setdefault("async_hammer", []).append(hr)
+    th = hammer(nops=25 if tier == "quick" else 60)
+    ck.case(("thread-hammer", seed), nontrivial=True, sample={"thread_hammer": th}, tags=("hammer", "threads", "real-threading.Lock"))
+    if th["wrong"] or th["alive"]:
+        ck.violation({"thread_hammer": th}, f"real threads on the real threading.Lock: {th['wrong']} operations did not get their own output / {th['alive']} threads stuck: {th['sample']}", matcher)
+    ck.extra["real_thread_hammer"] = th
     if tier == "thorough":
-        ck.extra["real_thread_hammer(advisory)"] = hammer()
         try:
             ck.extra["timeout_while_holding_lock(advisory, C07)"] = timeout_scenario()
         except Exception as e:  # noqa: BLE001
@@ -748,9 +929,17 @@ def run(tier, seed):
 def replay(path):
     r = json.load(open(path))
     v = (r.get("violation") or {}).get("case")
+    if v is not None and "async_hammer_seed" in v:
+        hr = async_hammer(v["async_hammer_seed"])
+        print("async hammer", hr)
+        return 1 if (hr["interleaved_ops"] or hr["n_other"] or hr["lock_locked"]) else 0
+    if v is not None and "thread_hammer" in v:
+        th = hammer()
+        print("thread hammer (real threads: not deterministic)", th)
+        return 1 if (th["wrong"] or th["alive"]) else 0
     if v is not None and "timed" in v:
         sc = v["timed"]
-        res = run_timed([sc])[0]
+        res = run_timed_robust([sc])[0]
         print("scenario", sc)
         print("observed", json.dumps(res, indent=1))
         bad = timed_oracle(sc, res)
